@@ -152,14 +152,30 @@ Proof.
       assert (H2m : 2 * m < cw).
       { pose proof (Nat.div_mod (cw + 1) 2 ltac:(lia)). pose proof (Nat.mod_upper_bound (cw + 1) 2 ltac:(lia)). lia. }
       split; [unfold f; rewrite !length_upd; exact Hl|].
-      intros x. unfold f. rewrite !nth_upd, !length_upd, Hl.
-      rewrite (Hn m), (Hn (cw - m - 1)), (Hn x).
-      repeat match goal with
-             | |- context [Nat.eqb ?a ?b] => destruct (Nat.eqb_spec a b)
-             | |- context [Nat.ltb ?a ?b] => destruct (Nat.ltb_spec a b)
-             | |- context [Nat.leb ?a ?b] => destruct (Nat.leb_spec a b)
-             end; cbn [andb orb]; try reflexivity; try lia;
-      try (f_equal; f_equal; lia). }
+      assert (Hi : nth m r [] = nth m row []).
+      { rewrite (Hn m).
+        destruct (Nat.ltb_spec m m); [lia|]. destruct (Nat.leb_spec (cw - m) m); [lia|]. reflexivity. }
+      assert (Hj : nth (cw - m - 1) r [] = nth (cw - m - 1) row []).
+      { rewrite (Hn (cw - m - 1)).
+        destruct (Nat.ltb_spec (cw - m - 1) m); [lia|]. destruct (Nat.leb_spec (cw - m) (cw - m - 1)); [lia|]. reflexivity. }
+      intros x. unfold f. rewrite !nth_upd, !length_upd, Hl, Hi, Hj.
+      assert (Hjl : Nat.ltb (cw - m - 1) (length row) = true) by (apply Nat.ltb_lt; lia).
+      assert (Hml : Nat.ltb m (length row) = true) by (apply Nat.ltb_lt; lia).
+      rewrite Hjl, Hml, !andb_true_r.
+      destruct (Nat.eqb_spec x (cw - m - 1)) as [->|Hxj].
+      { replace (cw - 1 - (cw - m - 1)) with m by lia.
+        destruct (Nat.ltb_spec (cw - m - 1) (S m)); cbn [orb]; [reflexivity|].
+        destruct (Nat.leb_spec (cw - S m) (cw - m - 1)); [|lia].
+        destruct (Nat.ltb_spec (cw - m - 1) cw); [reflexivity|lia]. }
+      destruct (Nat.eqb_spec x m) as [->|Hxm].
+      { replace (cw - 1 - m) with (cw - m - 1) by lia.
+        destruct (Nat.ltb_spec m (S m)); [reflexivity|lia]. }
+      rewrite (Hn x).
+      replace ((x <? S m) || ((cw - S m <=? x) && (x <? cw)))%bool
+        with ((x <? m) || ((cw - m <=? x) && (x <? cw)))%bool; [reflexivity|].
+      destruct (Nat.ltb_spec x m); destruct (Nat.ltb_spec x (S m));
+        destruct (Nat.leb_spec (cw - m) x); destruct (Nat.leb_spec (cw - S m) x);
+        destruct (Nat.ltb_spec x cw); cbn [andb orb]; try reflexivity; lia. }
   destruct HP as [Hl Hn]. split; [exact Hl|].
   intros x. fold f. rewrite Hn.
   assert (H2 : cw <= 2 * ((cw + 1) / 2) /\ 2 * ((cw + 1) / 2) <= cw + 1).
@@ -198,11 +214,11 @@ Lemma flip_h_row_inplace_spec (cw xc wb : nat) (row : list blk) x :
   nth x (flip_h_row_inplace cw xc wb row) [] =
   if x + xc <? cw then blk_fliph (nth (cw - 1 - (x + xc)) row []) else nth (x + xc) row [].
 Proof.
-  intros Hcw Hwb Hx. unfold flip_h_row_inplace.
+  intros Hcw Hwb Hx. unfold flip_h_row_inplace. cbv zeta. unfold blk in *.
   destruct (swap_loop cw row Hcw) as [Hl Hn]. cbv zeta in Hl, Hn.
   destruct (Nat.ltb_spec 0 xc) as [Hpos|Hz].
-  - rewrite (shift_loop xc wb _ Hpos) by (rewrite Hl; exact Hwb) || exact Hx.
-    apply Hn.
+  - rewrite (shift_loop xc wb _ Hpos); [apply Hn | ..];
+      first [exact Hx | apply Nat.le_trans with (length row); [exact Hwb|apply Nat.eq_le_incl; symmetry; exact Hl]].
   - assert (xc = 0) by lia. subst xc. rewrite Nat.add_0_r. apply Hn.
 Qed.
 End InPlace.
